@@ -809,6 +809,92 @@ def run(tier="quick", seed=0):
                     for hm in (hmethods if thorough else (hmethods[hi % 3],)):
                         discovered_case(w, h, up, rounds, hm)
 
+        # ---- layer I: `board` given as an iterable of boards (set_led: "sent to the first board in the iterable") ---------
+        mcm.SCPConnection, bmm.SCPConnection = Rec, Rec
+        for boards in ([3, 1], (5, 4, 3), [2], [0, 1, 2], [7, 2, 23], (1, 0)):
+            for way in ("kw", "pos", "ctx"):
+                for led in (7, [0, 7]):
+                    ev += 1
+                    layers["I"] = layers.get("I", 0) + 1
+                    distinct.add(("I", tuple(boards), way, repr(led)))
+                    ctl = new_controller(BMPController)
+                    del trace[:]
+                    try:
+                        if way == "kw":
+                            ctl.set_led(led, True, board=boards)
+                        elif way == "pos":
+                            ctl.set_led(led, True, 0, 0, boards)
+                        else:
+                            with ctl(board=boards):
+                                ctl.set_led(led, True)
+                        out = "ok"
+                    except Exception as e:      # noqa
+                        out = "%s: %s" % (type(e).__name__, e)
+                    inputs = {"method": "BMPController.set_led", "led": led, "board": list(boards), "way": way}
+                    first = list(boards)[0]
+                    good = (out == "ok" and len(trace) == 1 and trace[0][4] == first and (trace[0][2], trace[0][3]) == (0, 0)
+                            and trace[0][7] == sum(1 << b for b in boards) and trace[0][1] == bmp_host(0, 0, first))
+                    if not good:
+                        note("I", "destination_board", "set_led for boards %r (%s): outcome %s, datagrams %r; the command goes to the first board named, %d, over %r, with the board mask %#x" % (
+                            list(boards), way, out, [t[:8] for t in trace], first, bmp_host(0, 0, first), sum(1 << b for b in boards)), inputs)
+
+        # ---- layer W: the resolved destination as it stands in the datagram (real SCPConnection, simulated socket) ---------
+        # (every core 0..17 / every board 0..23 x every way of passing it; the 10-byte SDP header is read by hand:
+        #  byte 4 = destination port << 5 | core, bytes 6, 7 = destination y, x)
+        import struct as _struct
+        from bounded import _scpsim as sim
+        mcm.SCPConnection, bmm.SCPConnection = real_mc_conn, real_bmp_conn
+        seen = []
+
+        def peer(raw, net):
+            seen.append(bytes(raw))
+            flags, tag, dpc, spc, dy, dx, sy, sx, cmd, seq = _struct.unpack_from("<2x8B2H", raw)
+            return [(sim.LAT, _struct.pack("<2x8B2H3I", 0x07, tag, spc, dpc, sy, sx, dy, dx, 0x80, seq, 0x60300000, (133 << 16) | 256, 3) + b"\0" * 16, None)]
+        net = sim.SimNet(peer, max_steps=20000)
+        with sim.patched(net):
+            wm = MachineController("wire", structs=structs)
+            wb = BMPController("wire-bmp")
+            wm._scp_data_length = wb._scp_data_length = 256
+            for v in range(24):
+                for way in ("kw", "ctx", "nested"):
+                    for kind in (("core",) if v < 18 else ()) + ("board",):
+                        ev += 1
+                        layers["W"] = layers.get("W", 0) + 1
+                        distinct.add(("W", kind, v, way))
+                        del seen[:]
+                        x, y = 3 + v % 5, 4 + v % 3
+                        want = (x, y, v) if kind == "core" else (0, 0, v)
+                        try:
+                            if kind == "core":
+                                if way == "kw":
+                                    wm.send_scp(int(consts.SCPCommands.sver), x=x, y=y, p=v)
+                                elif way == "ctx":
+                                    with wm(x=x, y=y, p=v):
+                                        wm.send_scp(int(consts.SCPCommands.sver))
+                                else:
+                                    with wm(x=x, y=y, p=(v + 1) % 18):
+                                        with wm(p=v):
+                                            wm.send_scp(int(consts.SCPCommands.sver))
+                            else:
+                                if way == "kw":
+                                    wb.set_led(7, True, board=v)
+                                elif way == "ctx":
+                                    with wb(board=v):
+                                        wb.set_led(7, True)
+                                else:
+                                    with wb(board=(v + 1) % 24):
+                                        with wb(board=v):
+                                            wb.set_led(3, None)
+                            out = "ok"
+                        except Exception as e:      # noqa
+                            out = "%s: %s" % (type(e).__name__, e)
+                        got = [(d[7], d[6], d[4] & 0x1f) for d in seen if len(d) >= 14]
+                        if out != "ok" or not got or any(g != want for g in got):
+                            note("W", "destination_core" if kind == "core" else "destination_board",
+                                 "%s %d passed %s: outcome %s; the datagrams are addressed to (x, y, core/board) %r, resolved %r" % (kind, v, way, out, got, want),
+                                 {"kind": kind, "value": v, "way": way})
+        mcm.SCPConnection, bmm.SCPConnection = Rec, Rec
+
         if affected:
             samples.insert(0, {"methods_whose_inner_calls_take_p_from_the_enclosing_block": sorted(affected)})
         samples.insert(0, {"decorated_methods_driven (outcome against the fixed replies, datagrams recorded)": driven, "skipped": skipped})
@@ -830,7 +916,7 @@ def run(tier="quick", seed=0):
                      "inner exit and after every catch. S: nestings of application blocks (id positional / keyword / from context) mixed with argument blocks, every exit path: wire "
                      "log == stop signals, inner first. Q: three context objects (two argument blocks, one application block) created UP FRONT, then every well-nested enter/leave "
                      "program with <= 3 blocks over them (siblings, re-entry, nesting) x every subset (quick: every ninth for 3 blocks) of the points in between at which the context in force is probed; stop signal exactly when the application block is left. G: 12x12, 24x12, 12x24, 36x12, 24x24 SpiNN-5 machines x root chips (0,0),(8,4),(4,8),(1,2) x all / every second / no "
-                     "connection known, every chip, five methods (quick: one of them in rotation), expected board from an own hexagon model. H: the same question after the REAL discover_connections() (once / twice) on a simulated 12x12, 24x12, 12x24 (thorough 24x24) machine (bounded/_scamp.py answers the probes) whose Ethernet links are up on all / all but the first / every second / only the first board: the connections created are exactly those of the boards that are up and every chip's command goes over its own board's. "
+                     "connection known, every chip, five methods (quick: one of them in rotation), expected board from an own hexagon model. I: set_led with `board` an iterable of boards (6 lists in their own order x keyword / positional / context x one or several LEDs): sent once, to the first board named, over that board's connection, with the mask of all of them. W: every core 0..17 and every board 0..23 x keyword / context / nested contexts through the REAL SCPConnection over a simulated socket: the destination chip and core / board read by hand from the datagram's SDP header are the resolved ones. H: the same question after the REAL discover_connections() (once / twice) on a simulated 12x12, 24x12, 12x24 (thorough 24x24) machine (bounded/_scamp.py answers the probes) whose Ethernet links are up on all / all but the first / every second / only the first board: the connections created are exactly those of the boards that are up and every chip's command goes over its own board's. "
                      "distinct = (method, ways) / (nesting, exit path) / (machine, root, known set, method)" % (layers, len(methods), len(skipped), "all three" if thorough else "one of three in rotation")),
             "bound": "<= 3 nested blocks, 4 ways of passing, machines up to 24x24 / 36x12, fixed dummy arguments and fixed replies from the recording connection",
             "exhaustive": False, "label": "bounded", "samples": samples[:8], "violations": viol[:6], "seconds": round(time.time() - t0, 2)}
